@@ -10,27 +10,27 @@ EXTENDS Naturals, Sequences, FiniteSets, TLC
 
 CONSTANTS PkgTags, SymTags, ExtTags, ExtraIds
 
-R  == <<>>
-P  == <<"p">>
-PQ == <<"p", "q">>
+PkgR  == <<>>
+PkgP  == <<"p">>
+PkgPQ == <<"p", "q">>
 
-PkgChoices == {[tag |-> "r", pkg |-> R], [tag |-> "p", pkg |-> P], [tag |-> "pq", pkg |-> PQ]}
+PkgChoices == {[tag |-> "r", pkg |-> PkgR], [tag |-> "p", pkg |-> PkgP], [tag |-> "pq", pkg |-> PkgPQ]}
 
-L(n, k) == [n |-> n, k |-> k]
+Loc(n, k) == [n |-> n, k |-> k]
 SymChoices ==
   { [tag |-> "0",  syms |-> {}],
-    [tag |-> "A",  syms |-> {L("A", "msg")}],
-    [tag |-> "Ae", syms |-> {L("A", "enumval")}],
-    [tag |-> "q",  syms |-> {L("q", "msg")}],
-    [tag |-> "p",  syms |-> {L("p", "msg")}],
-    [tag |-> "Aq", syms |-> {L("A", "msg"), L("q", "enumval")}] }
+    [tag |-> "A",  syms |-> {Loc("A", "msg")}],
+    [tag |-> "Ae", syms |-> {Loc("A", "enumval")}],
+    [tag |-> "q",  syms |-> {Loc("q", "msg")}],
+    [tag |-> "p",  syms |-> {Loc("p", "msg")}],
+    [tag |-> "Aq", syms |-> {Loc("A", "msg"), Loc("q", "enumval")}] }
 
-X(e, t, ep, prov) == [e |-> e, t |-> t, ep |-> ep, prov |-> prov]
-M1 == X(<<"p", "M">>, 1, P, "bp")
-M2 == X(<<"p", "M">>, 2, P, "bp")
-G1 == X(<<"G">>, 1, R, "br")
-X1 == X(<<"p", "q", "X">>, 1, PQ, "c")
-X2 == X(<<"p", "q", "X">>, 2, PQ, "c")
+Xt(e, t, ep, prov) == [e |-> e, t |-> t, ep |-> ep, prov |-> prov]
+M1 == Xt(<<"p", "M">>, 1, PkgP, "bp")
+M2 == Xt(<<"p", "M">>, 2, PkgP, "bp")
+G1 == Xt(<<"G">>, 1, PkgR, "br")
+X1 == Xt(<<"p", "q", "X">>, 1, PkgPQ, "c")
+X2 == Xt(<<"p", "q", "X">>, 2, PkgPQ, "c")
 ExtChoices ==
   { [tag |-> "0",    exts |-> <<>>],
     [tag |-> "m1",   exts |-> <<M1>>],
@@ -66,12 +66,12 @@ Gen(pk, sc, xc) ==
 
 (* hand-made files: the extendee providers, and a dependency chain c <- d2 / e2 *)
 Named ==
-  [bp |-> MkFile("bp", P,  {L("M", "xmsg")}, <<>>, <<>>),
-   br |-> MkFile("br", R,  {L("G", "xmsg")}, <<>>, <<>>),
-   c  |-> MkFile("c",  PQ, {L("X", "xmsg")}, <<X1>>, <<>>),
-   d2 |-> MkFile("d2", P,  {L("D", "msg")}, <<X2>>, <<"c">>),
-   e2 |-> MkFile("e2", R,  {L("A", "msg")}, <<X2, G1>>, <<"c", "br">>),
-   h  |-> MkFile("h",  R,  {L("H", "msg")}, <<>>, <<"d2">>)]
+  [bp |-> MkFile("bp", PkgP,  {Loc("M", "xmsg")}, <<>>, <<>>),
+   br |-> MkFile("br", PkgR,  {Loc("G", "xmsg")}, <<>>, <<>>),
+   c  |-> MkFile("c",  PkgPQ, {Loc("X", "xmsg")}, <<X1>>, <<>>),
+   d2 |-> MkFile("d2", PkgP,  {Loc("D", "msg")}, <<X2>>, <<"c">>),
+   e2 |-> MkFile("e2", PkgR,  {Loc("A", "msg")}, <<X2, G1>>, <<"c", "br">>),
+   h  |-> MkFile("h",  PkgR,  {Loc("H", "msg")}, <<>>, <<"d2">>)]
 
 GenTriples == {<<pk, sc, xc>> \in PkgChoices \X SymChoices \X ExtChoices :
                  /\ pk.tag \in PkgTags /\ sc.tag \in SymTags /\ xc.tag \in ExtTags
@@ -83,4 +83,6 @@ AllIds == {GenId(t[1], t[2], t[3]) : t \in GenTriples} \cup NeededNamed
 UFD0 == [id \in AllIds |->
           IF id \in DOMAIN Named THEN Named[id]
           ELSE LET t == CHOOSE t \in GenTriples : GenId(t[1], t[2], t[3]) = id IN Gen(t[1], t[2], t[3])]
+(* TLCEval: make it an explicit function once instead of a lazily applied definition *)
+UFD == TLCEval(UFD0)
 =============================================================================
